@@ -487,6 +487,32 @@ def clause10(P, res):
                                     if not ok_w else "the node state is not reset to WAITING on every path"), where=f"{b.file}:{b.line}")
 
 
+def clause11(P, res):
+    rid = "C10-11"
+    res.rule(rid, "a lock future that returns Pending has re-armed its node in this poll: every path from the entry of MutexFuture/ReadFuture/WriteFuture::poll to a "
+                  "constructed Poll::Pending passes ListGuard::rearm (which installs the current waker AND resets the node to WAITING). A node that was woken stays linked "
+                  "but holds no handle; refreshing 'the stored waker' of a linked node re-registers nothing, the next release finds no handle to wake and the future, "
+                  "and everyone queued behind it, sleeps with the lock free")
+    n = 0
+    for b in sync_bodies(P):
+        if b.impl_trait != "core::future::future::Future" or b.name != "poll":
+            continue
+        pend = [e for e in b.events if e.kind == "assign" and e.data["p"][0] == 0 and e.data["r"]["k"] == "agg" and e.data["r"]["adt"] == "core::task::poll::Poll"
+                and e.data["r"]["variant"] == "Pending"]
+        if not pend:
+            continue
+        n += 1
+        arms = [e for e in b.calls() if e.method == "rearm" and "wait_queue" in e.callee]
+        bad = [p for p in pend if not (arms and b.dominated_by_any(p.pos, {a.pos for a in arms}))]
+        if bad:
+            res.violated(rid, b.id, f"a path reaches Poll::Pending at {bad[0].loc} without ListGuard::rearm in this poll: a node that was woken (handle taken, still linked) "
+                         "is left without a wake handle", where=bad[0].loc)
+        else:
+            res.holds(rid, b.id, f"every Pending follows rearm ({arms[0].loc})", where=pend[0].loc)
+    if n < 3:
+        res.violated(rid, "lock-futures", f"expected the three lock futures, found {n}")
+
+
 def run(P, ctx):
     res = Result("C10")
     res.extra["explanation"] = "Acquisition/guard, release/wake, queue-and-recheck, cancellation and type-level shapes of HybridMutex and HybridRwLock."
@@ -502,4 +528,5 @@ def run(P, ctx):
     clause8(P, res)
     clause9(P, res)
     clause10(P, res)
+    clause11(P, res)
     return res
